@@ -25,6 +25,11 @@
  *   TC tgid tid uid gid sport         run the tcp_connect kprobe for this thread's in-flight connect:
  *                                     the socket carries the address the thread's last C4 left behind
  *   TCX tgid tid uid gid family sport daddr dport    run the kprobe on an arbitrary socket
+ *   FAIL kind k errno                 the k-th bpf_map_update_elem (kind 1) / bpf_map_delete_elem (kind 2) call of the
+ *                                     NEXT hook run fails with -errno and has no effect
+ *   SCHED k <C4|TC|TCX line>          another caller's hook runs on "another CPU" right after the k-th map helper call
+ *                                     of the NEXT hook run returns (afterwards, if that run makes fewer calls); the next
+ *                                     hook line then answers [[outs], maps..., [fired, the other hook's outs]]
  * Outputs: map operations -> [ret] (A? -> [0, v0..v4] or [-2]); a word count that does not match
  * the map's key/value size -> [-1000] (aya refuses such a map at HashMap::try_from);
  * C4 -> [ret, user_ip4, user_port]; TC/TCX -> [ret]; TC without an in-flight connect -> [-1001].
@@ -127,6 +132,60 @@ static long run_kprobe(struct verif_task t, __u32 family, __u32 sport, __u32 dad
 
 #define REG(m) maps_register(&m, #m, WORDS(*m.type), sizeof(*m.key), sizeof(*m.value), WORDS(*m.max_entries))
 
+/* ---- a hook run: C4 / TC / TCX.  Writes its outputs (comma separated, no brackets) to o ---------- */
+static int is_hook(const char *op) { return !strcmp(op, "C4") || !strcmp(op, "TC") || !strcmp(op, "TCX"); }
+
+static void run_hook(const char *op, __u32 *w, int n, FILE *o)
+{
+    if (!strcmp(op, "C4")) {
+        need(n, 7, "C4");
+        struct verif_task t = {.tgid = w[0], .pid = w[1], .uid = w[2], .gid = w[3]};
+        struct bpf_sock_addr ctx;
+        memset(&ctx, 0, sizeof ctx);
+        ctx.user_family = 2; /* AF_INET */
+        ctx.family = 2;
+        ctx.user_ip4 = w[4];
+        ctx.user_port = w[5];
+        ctx.protocol = w[6];
+        ctx.type = w[6] == 6 ? 1 /* SOCK_STREAM */ : 2 /* SOCK_DGRAM */;
+        maps_set_current(t);
+        long ret = connect4(&ctx);
+        struct inflight *f = find_inflight(t.tgid, t.pid, 1);
+        f->ip = ctx.user_ip4;
+        f->port = ctx.user_port;
+        fprintf(o, "%ld,%u,%u", ret, ctx.user_ip4, ctx.user_port);
+    } else if (!strcmp(op, "TC")) {
+        need(n, 5, "TC");
+        struct verif_task t = {.tgid = w[0], .pid = w[1], .uid = w[2], .gid = w[3]};
+        struct inflight *f = find_inflight(t.tgid, t.pid, 0);
+        if (!f) {
+            fputs("-1001", o);
+        } else {
+            __u32 ip = f->ip, port = f->port;
+            f->used = 0;
+            fprintf(o, "%ld", run_kprobe(t, 2 /* AF_INET */, w[4], ip, port));
+        }
+    } else {
+        need(n, 8, "TCX");
+        struct verif_task t = {.tgid = w[0], .pid = w[1], .uid = w[2], .gid = w[3]};
+        fprintf(o, "%ld", run_kprobe(t, w[4], w[5], w[6], w[7]));
+    }
+}
+
+/* the other caller's hook that a SCHED line placed between two helper calls of the next hook run */
+static char nested_op[16];
+static __u32 nested_w[32];
+static int nested_n, nested_armed;
+static char *nested_out;
+static size_t nested_out_len;
+
+static void run_nested(void)
+{
+    FILE *o = open_memstream(&nested_out, &nested_out_len);
+    run_hook(nested_op, nested_w, nested_n, o);
+    fclose(o);
+}
+
 int main(void)
 {
     REG(policy_map);
@@ -157,8 +216,32 @@ int main(void)
             return 3;
         }
         memcpy(op, line, oplen);
-        int n = sp ? parse_words(sp, w, 32) : 0;
-        maps_quiesce();
+        int n = 0;
+        if (!strcmp(op, "SCHED")) {
+            /* SCHED k <hook line> */
+            char *p = sp;
+            unsigned long k = strtoul(p, &p, 10);
+            while (*p == ' ')
+                p++;
+            char *sp2 = strpbrk(p, " \t\r\n");
+            if (!sp2 || (size_t)(sp2 - p) >= sizeof nested_op) {
+                fprintf(stderr, "driver: bad SCHED line\n");
+                return 3;
+            }
+            memset(nested_op, 0, sizeof nested_op);
+            memcpy(nested_op, p, (size_t)(sp2 - p));
+            if (!is_hook(nested_op)) {
+                fprintf(stderr, "driver: SCHED takes a hook line\n");
+                return 3;
+            }
+            nested_n = parse_words(sp2, nested_w, 32);
+            nested_armed = 1;
+            maps_sched((int)k, run_nested);
+            fputs("[[]", stdout);
+            dump_all();
+            continue;
+        }
+        n = sp ? parse_words(sp, w, 32) : 0;
 
         if (!strcmp(op, "INFO")) {
             void *all[4] = {&policy_map, &skip_process_map, &audit_map, &local_map};
@@ -180,6 +263,12 @@ int main(void)
         } else if (!strcmp(op, "RESET")) {
             maps_reset();
             memset(inflight, 0, sizeof inflight);
+            nested_armed = 0;
+            fputs("[[]", stdout);
+        } else if (!strcmp(op, "FAIL")) {
+            /* FAIL kind k errno: the k-th update (kind 1) / delete (kind 2) helper call of the next hook run fails */
+            need(n, 3, "FAIL");
+            maps_inject((int)w[0], (int)w[1], (int)w[2]);
             fputs("[[]", stdout);
         } else if (!strcmp(op, "P+") || !strcmp(op, "S")) {
             void *m = op[0] == 'P' ? (void *)&policy_map : (void *)&skip_process_map;
@@ -212,38 +301,33 @@ int main(void)
                     fputs("]", stdout);
                 }
             }
-        } else if (!strcmp(op, "C4")) {
-            need(n, 7, "C4");
-            struct verif_task t = {.tgid = w[0], .pid = w[1], .uid = w[2], .gid = w[3]};
-            struct bpf_sock_addr ctx;
-            memset(&ctx, 0, sizeof ctx);
-            ctx.user_family = 2; /* AF_INET */
-            ctx.family = 2;
-            ctx.user_ip4 = w[4];
-            ctx.user_port = w[5];
-            ctx.protocol = w[6];
-            ctx.type = w[6] == 6 ? 1 /* SOCK_STREAM */ : 2 /* SOCK_DGRAM */;
-            maps_set_current(t);
-            long ret = connect4(&ctx);
-            struct inflight *f = find_inflight(t.tgid, t.pid, 1);
-            f->ip = ctx.user_ip4;
-            f->port = ctx.user_port;
-            printf("[[%ld,%u,%u]", ret, ctx.user_ip4, ctx.user_port);
-        } else if (!strcmp(op, "TC")) {
-            need(n, 5, "TC");
-            struct verif_task t = {.tgid = w[0], .pid = w[1], .uid = w[2], .gid = w[3]};
-            struct inflight *f = find_inflight(t.tgid, t.pid, 0);
-            if (!f) {
-                fputs("[[-1001]", stdout);
-            } else {
-                long ret = run_kprobe(t, 2 /* AF_INET */, w[4], f->ip, f->port);
-                f->used = 0;
-                printf("[[%ld]", ret);
+        } else if (is_hook(op)) {
+            fputs("[[", stdout);
+            maps_run_begin();
+            run_hook(op, w, n, stdout);
+            int not_fired = maps_run_end();
+            fputs("]", stdout);
+            if (nested_armed) {
+                /* the other caller's hook: between two helper calls if the point was reached, else afterwards */
+                nested_armed = 0;
+                if (not_fired) {
+                    maps_run_begin();
+                    run_nested();
+                    maps_run_end();
+                }
+                fputc(',', stdout);
+                maps_dump(&policy_map, stdout);
+                fputc(',', stdout);
+                maps_dump(&skip_process_map, stdout);
+                fputc(',', stdout);
+                maps_dump(&audit_map, stdout);
+                fputc(',', stdout);
+                maps_dump(&local_map, stdout);
+                printf(",[%d,%s]]\n", not_fired ? 0 : 1, nested_out ? nested_out : "");
+                free(nested_out);
+                nested_out = NULL;
+                continue;
             }
-        } else if (!strcmp(op, "TCX")) {
-            need(n, 8, "TCX");
-            struct verif_task t = {.tgid = w[0], .pid = w[1], .uid = w[2], .gid = w[3]};
-            printf("[[%ld]", run_kprobe(t, w[4], w[5], w[6], w[7]));
         } else {
             fprintf(stderr, "driver: unknown operation '%s'\n", op);
             return 3;
